@@ -26,13 +26,14 @@ CONSTANTS MaxChanges,   \* longest schedule
           OnlyBfs,      \* TRUE: only the windows marked for exhaustive exploration
           FillerIdx,    \* the fillers in use (indices into Fillers)
           Inject,       \* TRUE: Finish also hands out variants with a syntax error to inject
-          FinishEarly   \* TRUE: every schedule is handed out; FALSE: only complete sweeps (cursor at the end)
+          FinishEarly,  \* TRUE: every schedule is handed out; FALSE: only complete sweeps (cursor at the end)
+          OnlyWordPairs \* TRUE: only boundaries between the words of multi-word keywords are changed
 
 \* [wid, toks, fill0, bfs, inj]: token strings, original fillers (Len(toks) - 1 of them),
 \* exhaustive exploration wanted, error injection possible (the window is a whole small text)
 Wins == ndJsonDeserialize(IOEnv.TOKENS_FILE)
 
-Fillers == <<"", " ", "  ", "\t", "\n", "--c\n", "--c--", "/*c*/", "/*a/*b*/c*/", "/*c\nd*/">>
+Fillers == <<"", " ", "  ", "\t", "\n", "--c\n", "--c--", "/*c*/", "/*a/*b*/c*/", "/*c\nd*/", "\r\n">>
 AnySkip == 1..100000
 AllFillers == 1..Len(Fillers)
 
@@ -94,6 +95,7 @@ Change ==
   /\ \E sk \in Skips, fi \in FillerIdx :
        LET b == gB + sk - 1 IN
        /\ b < NTok(gW)
+       /\ OnlyWordPairs => InMultiWord(Wins[gW].toks[b], Wins[gW].toks[b + 1])
        /\ Fillers[fi] # gFill[b]
        /\ MayPlace(Wins[gW].toks[b], fi, Wins[gW].toks[b + 1])
        /\ gFill' = [gFill EXCEPT ![b] = Fillers[fi]]
@@ -141,23 +143,30 @@ LayoutStays == UNCHANGED layVars
 ------------------------------------------------------------------------------
 (* positions of tokens in a rendered text (for error locations)             *)
 
-CharsOf(s) == Explode(s)
-CountNL(cs) == Cardinality({j \in 1..Len(cs) : cs[j] = NL})
-AfterLastNL(cs) ==      \* number of characters after the last new-line (Len if there is none)
-  IF CountNL(cs) = 0 THEN Len(cs)
-  ELSE Len(cs) - (CHOOSE j \in 1..Len(cs) : cs[j] = NL /\ \A q \in (j + 1)..Len(cs) : cs[q] # NL)
+\* Longer stretches of text are handled as sequences of lines (each with its new-line, except possibly
+\* the last), as the harness records them: TLC's string operators are linear in the string.
+JoinLines(ls) == FoldLeft(LAMBDA acc, ln : acc \o ln, "", ls)
+ExplodeLines(ls) == FlattenSeq([q \in 1..Len(ls) |-> Explode(ls[q])])
+EndsNL(ln) == Len(ln) > 0 /\ SubSeq(ln, Len(ln), Len(ln)) = NL
+NLCount(ls) == Cardinality({q \in 1..Len(ls) : EndsNL(ls[q])})
+TotalLen(ls) == FoldLeft(LAMBDA acc, ln : acc + Len(ln), 0, ls)
+AfterLastNL(ls) == FoldLeft(LAMBDA acc, ln : IF EndsNL(ln) THEN 0 ELSE acc + Len(ln), 0, ls)   \* characters behind the last new-line
 
-\* [line, col, cole] of every token of  lead \o Render(toks, fill): 1-based line, first and last column.
-\* D: scanner deviations under which the *reader of the text* counts lines (blanked new-lines vanish)
-PositionsAfter(lead, toks, fill, D) ==
-  LET f == BlankOf(CharsOf(lead), D)
-      first == [line |-> 1 + CountNL(f), col |-> AfterLastNL(f) + 1, cole |-> AfterLastNL(f) + Len(toks[1])]
+\* a stretch of text between tokens as its reader counts lines and columns in it: X.680 keeps every
+\* new-line (D = {}: the text itself); a reader with scanner deviations D sees the text blanked its way
+ReadAs(ls, D) == IF D = {} THEN ls ELSE ScanLines(ls, D).out
+
+\* [line, col, cole] of the tokens 1..upto of  lead \o Render(toks, fill): 1-based line, first and last column
+\* (lead and every filler given as lines)
+PositionsAfter(lead, toks, fill, D, upto) ==
+  LET f == ReadAs(lead, D)
+      first == [line |-> 1 + NLCount(f), col |-> AfterLastNL(f) + 1, cole |-> AfterLastNL(f) + Len(toks[1])]
   IN FoldLeft(LAMBDA acc, j :
                 LET prev == acc[Len(acc)]
-                    g == BlankOf(CharsOf(fill[j - 1]), D)
-                    col == IF CountNL(g) = 0 THEN prev.cole + 1 + Len(g) ELSE AfterLastNL(g) + 1
-                IN Append(acc, [line |-> prev.line + CountNL(g), col |-> col, cole |-> col + Len(toks[j]) - 1]),
-              <<first>>, [j \in 1..(Len(toks) - 1) |-> j + 1])
+                    g == ReadAs(fill[j - 1], D)
+                    col == IF NLCount(g) = 0 THEN prev.cole + 1 + TotalLen(g) ELSE AfterLastNL(g) + 1
+                IN Append(acc, [line |-> prev.line + NLCount(g), col |-> col, cole |-> col + Len(toks[j]) - 1]),
+              <<first>>, [j \in 1..(upto - 1) |-> j + 1])
 
 \* the token a reported position (line, col) falls on: on it or just behind it; Len+1 = end of text
 TokenAt(pos, line, col) ==
